@@ -99,6 +99,9 @@ func c04Profiles(tier Tier) []*explore.Profile {
 			}
 			out = append(out, explore.SeedState{Name: n + "+z1", W: b.W, Legs: b.Legs, Failed: b.Failed})
 		}
+		// three refunds to a0 in flight (one per transfer function): a0 can be frozen before they arrive
+		rb := uni.SeedBuilder(env, "refunds")
+		out = append(out, explore.SeedState{Name: "refunds", W: rb.W, Legs: rb.Legs, Failed: rb.Failed})
 		return out
 	}
 	p := &explore.Profile{
